@@ -25,6 +25,10 @@ pub struct ModeCase {
     pub companions: Vec<(String, String)>,
     /// names removed from the standard context
     pub missing: Vec<String>,
+    /// the environment has a formatter of its own that writes values without the help of the
+    /// default one (what an undefined may be printed as is not the formatter's decision)
+    #[serde(default)]
+    pub custom_formatter: bool,
 }
 
 pub struct Monotone;
@@ -41,6 +45,12 @@ fn render_mode(c: &ModeCase, mode: UndefinedBehavior) -> (Outcome, Vec<String>) 
     let mut env = Environment::new();
     env.set_undefined_behavior(mode);
     env.set_fuel(Some(100_000));
+    if c.custom_formatter {
+        env.set_formatter(|out, _state, value| {
+            use std::fmt::Write as _;
+            write!(out, "{value}").map_err(|_| minijinja::Error::new(ErrorKind::WriteFailure, "formatter could not write"))
+        });
+    }
     for (n, s) in &c.companions {
         let _ = env.add_template_owned(n.clone(), s.clone());
     }
@@ -110,12 +120,14 @@ impl Part for Monotone {
             prop::collection::vec(comp, 3),
             prop::collection::vec(0..free::VARS.len(), 0..6),
             any::<bool>(),
+            prop::bool::weighted(0.25),
         )
-            .prop_map(|(source, comps, missing, html)| ModeCase {
+            .prop_map(|(source, comps, missing, html, custom_formatter)| ModeCase {
                 main_name: if html { "main.html".into() } else { "main.txt".into() },
                 source,
                 companions: free::COMPANIONS.iter().zip(comps).map(|(n, s)| (n.to_string(), s)).collect(),
                 missing: missing.into_iter().map(|i| free::VARS[i].to_string()).collect(),
+                custom_formatter,
             })
             .boxed()
     }
@@ -325,13 +337,16 @@ impl Part for Matrix {
 
     fn check(c: &MatrixCase) -> Verdict {
         let mut v = Verdict::pass(true);
-        for (i, (mode, name)) in MODES.iter().enumerate() {
+        // every row under the default formatter and under a formatter of the host's own
+        for (custom_formatter, (i, (mode, name))) in [false, true].into_iter().flat_map(|f| MODES.iter().enumerate().map(move |x| (f, x))) {
             let mc = ModeCase {
                 main_name: "m.txt".into(),
                 source: c.source.clone(),
                 companions: c.companions.clone(),
                 missing: vec!["u".into()],
+                custom_formatter,
             };
+            let name = if custom_formatter { format!("{name}+custom_formatter") } else { name.to_string() };
             let (out, _) = render_mode(&mc, *mode);
             match (c.fails[i], out) {
                 (true, Outcome::Err(ErrorKind::UndefinedError, _)) => {}
@@ -353,7 +368,7 @@ impl Part for Matrix {
 crate::declare_parts!(Monotone, Matrix);
 
 pub fn run(ctx: &mut Ctx) {
-    ctx.rule = "monotonicity: free-mode programs (every construct, every built-in filter/test/function in every argument position, companions for include/import/extends) over the standard context with a random subset of its keys removed, rendered under Strict, SemiStrict, Lenient and Chainable; for every stricter/weaker pair success of the stricter implies success of the weaker with byte-identical output. matrix: 40 site rows x 4 kinds of undefined operand (missing variable, missing attribute, index beyond a list, missing key) x 4 modes, plus 6 rows x 3 spellings of the silent undefined of an else-less inline if (access fails outside Chainable, printing and the tests never fail) and 18 multi-template rows (the same sites after `extends` where output is discarded, at the top level of imported modules, in included templates, inherited and overriding blocks, call blocks, macro defaults), enumerated completely against the documented fail/yield table. Non-trivial: the recording context saw a lookup miss and (two modes differ in outcome or all four succeed). Distinct by case.".into();
+    ctx.rule = "monotonicity: free-mode programs (every construct, every built-in filter/test/function in every argument position, companions for include/import/extends) over the standard context with a random subset of its keys removed, rendered under Strict, SemiStrict, Lenient and Chainable; for every stricter/weaker pair success of the stricter implies success of the weaker with byte-identical output. matrix: 40 site rows x 4 kinds of undefined operand (missing variable, missing attribute, index beyond a list, missing key) x 4 modes, plus 6 rows x 3 spellings of the silent undefined of an else-less inline if (access fails outside Chainable, printing and the tests never fail) and 18 multi-template rows (the same sites after `extends` where output is discarded, at the top level of imported modules, in included templates, inherited and overriding blocks, call blocks, macro defaults), enumerated completely against the documented fail/yield table, under the default formatter and under a formatter installed with set_formatter that writes the values itself. Non-trivial: the recording context saw a lookup miss and (two modes differ in outcome or all four succeed). Distinct by case.".into();
     ctx.assumptions = vec![
         "debug() is excluded (it prints the engine state, which names the undefined behaviour)".into(),
         "cases that hit the fuel limit or fail to load are skipped (counted under the label skipped_load_error_or_fuel)".into(),
